@@ -21,8 +21,6 @@ BENIGN = {
         "re-evaluates a send element that slide() evaluated inside the per-flow try when the head stopped on it",
     ("_generate_action_event_from_actionable_element", "get_event_from_element"):
         "same element as above, evaluated under the try by slide() before the head became actionable",
-    ("_handle_event_matching", "_start_flow"):
-        "the only raise (surplus positional arguments) could not be reached by experiment: the transformer/expander never produce surplus positional keys for a declared flow",
     ("_process_internal_events_without_default_matchers", "_get_reference_activated_flow_instance"):
         "evaluates, with the same empty context, the default expressions that create_flow_instance evaluated successfully when the reference instance was created",
 }
